@@ -251,7 +251,9 @@ def all_strings(v, out):
 
 
 def printable_bmp(s):
-    return all(c.isprintable() and ord(c) < 0x10000 and not (0xD800 <= ord(c) < 0xE000) for c in s)
+    # the statement promises the reload for printable BMP characters; characters beyond the BMP (written as a surrogate
+    # pair of \u escapes) are held to it as well - only lone surrogates and non-printable characters are left out
+    return all(c.isprintable() and not (0xD800 <= ord(c) < 0xE000) for c in s)
 
 
 def check_json(dj, v, indent, ea, res, fam, desc, load=None):
